@@ -153,6 +153,10 @@ class Socket:
         self.logger.debug(f"closing socket connection to '{self.host}' on port '{self.port}'")
 
         if self.isalive() and isinstance(self.sock, socket.socket):
+            with suppress(OSError):
+                # closing alone does not wake up a recv that is blocked in another thread (the
+                # timeout decorator's worker), shutting the socket down first does
+                self.sock.shutdown(socket.SHUT_RDWR)
             self.sock.close()
 
         self.logger.debug(
